@@ -204,7 +204,7 @@ func cborInts(n int) [][]byte {
 	return out
 }
 
-// cborDoc: [ text strings…, bytes(51), [49 ints], [50 ints], [51 ints], {"\u00e5"x30: "\u20ac"x17} ]
+// cborDoc: [ text strings…, bytes(51), [49 ints], [50 ints], [51 ints], {"\u00e5"x30: "\u20ac"x17}, big numbers… ]
 var cborDoc = func() []byte {
 	var items [][]byte
 	for _, s := range truncStrings {
@@ -215,6 +215,12 @@ var cborDoc = func() []byte {
 	m := append(cborHead(5, 1), cborText(truncStrings[0])...)
 	m = append(m, cborText(truncStrings[1])...)
 	items = append(items, m)
+	// numbers beyond int64: uint64 2^64-1, -2^64, a tagged bignum 2^64, a NaN float, and 2^63
+	ff := bytes.Repeat([]byte{0xff}, 8)
+	items = append(items,
+		append([]byte{0x1b}, ff...), append([]byte{0x3b}, ff...),
+		[]byte{0xc2, 0x49, 1, 0, 0, 0, 0, 0, 0, 0, 0}, []byte{0xfb, 0x7f, 0xf8, 0, 0, 0, 0, 0, 0},
+		[]byte{0x1b, 0x80, 0, 0, 0, 0, 0, 0, 0})
 	return cborArray(items...)
 }()
 
